@@ -97,6 +97,8 @@ fn programs(prop: Prop, tier: Tier) -> Vec<Program> {
                     "zc.d@0+zcerr.d@1",
                     "multi.d@0+zcerr.c@1",
                     "accept.d@0+zcrst.t@1",
+                    "recv.d@0+recv.t@0x",
+                    "read.h@0+job.h@1",
                 ] {
                     v.push(p(s, 1));
                 }
@@ -123,6 +125,13 @@ fn programs(prop: Prop, tier: Tier) -> Vec<Program> {
                 // io_uring only: zero-copy sends that fail at send time (error, then notification)
                 ("zcerr.d@0+recv.d@1", 1),
                 ("zcerr.t@0+zcrst.d@1", 1),
+                // two readers on two descriptors that are dup()s of ONE socket / pipe end: a chunk
+                // wakes both, one takes it, the other comes back empty-handed and must be served
+                // by the next chunk
+                ("recv.d@0+recv.d@0x", 2),
+                ("read.d@0x+read.t@0x", 2),
+                // probe-polled by hand once, then handed over to a spawned task
+                ("recv.h@0+job.h@1", 1),
             ] {
                 v.push(p(s, if tier == Tier::Thorough { 2 } else { mr }));
             }
@@ -140,6 +149,10 @@ fn programs(prop: Prop, tier: Tier) -> Vec<Program> {
                     "zcerr.d@0+zcerr.d@0+recv.d@1",
                     "zcux.t@0+recv.d@1+zcrst.c@2",
                     "zc.d@0+zcerr.t@1",
+                    "recv.d@0+recv.d@0x+recv.d@0",
+                    "read.d@0+read.d@0x+recv.t@1",
+                    "recv.h@0+recv.d@0x",
+                    "read.h@0+file.h@1+accept.h@2",
                 ] {
                     v.push(p(s, 2));
                 }
@@ -877,6 +890,9 @@ fn main() {
             report.must_reach("burst_two_completions_in_one_harvest");
             report.must_reach("two_readers_one_descriptor_delivered");
             report.must_reach("completed_at_submit");
+            report.must_reach("repolled_with_new_waker_then_woken");
+            report.must_reach("handed_over_task_woken_by_completion");
+            report.must_reach("dup_descriptor_reader_served_after_other_reader_took_first_chunk");
             report.must_reach("multishot_item_delivered");
             report.must_reach("zerocopy_buffer_returned_after_notification");
         }
